@@ -30,6 +30,9 @@ Items
       Only the requested functions (`--fns`, default all) and the functions they call are translated; callees are
       emitted first; mutual recursion is an error.  Function names are kept; everything else is renamed (N1).
 Names
+  N2  after each function `f`: `abbrev f_callee0 := @g0`, `f_callee1 := …` for the distinct functions and loops `f` calls directly, in
+      order of first call; every `def` is tagged `@[src_def]` (a simp set declared in Generated/AttrSrc.lean).  Both exist only
+      so that the equivalence proofs need not mention the names of private helpers.
   N1  parameters are `p0, p1, …` in order; every binding occurrence of a local (a `let`, an assignment to a `mut`
       variable, a pattern variable, the result of a call, the state coming out of a loop) gets the next fresh
       `v0, v1, …` of its function (SSA).  The environment maps each Rust variable in scope to its current Lean name;
@@ -60,6 +63,7 @@ Conditions (only in `if` / `while`) — ⟦c⟧ = (preamble, Lean Prop, decidabl
                                         empty preamble (otherwise short-circuiting would matter: error)
 Statements — ⟦s ; rest⟧, `rest` = the statements that follow up to the end of the function / loop body:
   S1  `let [mut] x = e;`                preamble(e) wrapped around `let v := ⟦e⟧` ⟦rest⟧ with x ↦ v
+  S1' `let x: R = e;`                   the annotation must be a type of I2's shapes and agree with the type of `e` where that is known; then S1
   S2  `let (q1, …, qk) = e;`            preamble(e) around `match ⟦e⟧ with | (q1', …, qk') => ⟦rest⟧`  (`_` stays `_`, patterns nest)
   S3  `x = e;`  `x op= e;` (x `mut`)    as S1 for `x op e`, then x ↦ v                     (op ∈ + - * / %)
   S4  `std::mem::swap(&mut x, &mut y);` no code: the Lean names of x and y are exchanged in the environment
@@ -75,6 +79,9 @@ Statements — ⟦s ; rest⟧, `rest` = the statements that follow up to the end
                                         state = the `mut` ones among them (a tuple; a single value if one; `()` if none);
                                         all of them must be of type T.  At the loop:  [bind (v…) ← f_loopK fuel <variables>]
                                         and every state variable ↦ its fresh v.  `break`, `continue`, `return` in a loop: error.
+  S7' `loop { if c { break; } B }`      S7 for `while !c { B }`;  `loop { B  if c { break; } }` = `{ B }` followed by S7 for `while !c { B }`;
+                                        `!` is pushed into a comparison (`!(b == 0)` from a `break` test becomes `b != 0`), so these forms give
+                                        the text of the `while` form.  Any other `loop` / `break` / `continue` / `for`: error.
   S8  `e;`                              preamble(e) around ⟦rest⟧ (the value is dropped)
   S9  tail expression `e` of the function body (or of a branch in tail position)      preamble(e) around `.ok ⟦e⟧`
 Fuel
@@ -422,8 +429,9 @@ class Parser:
                 pat = self.parse_pattern()
                 if mut and pat.kind != "pvar":
                     self.err("`let mut` with a tuple pattern is outside the translated subset", t)
-                if self.at(":"):
-                    self.err("type annotations on `let` are outside the translated subset")
+                ann = None
+                if self.eat(":"):
+                    ann = self.parse_type()          # S1': checked against the initialiser's type by the emitter, then dropped
                 if not self.at("="):
                     self.err("`let` without initialiser is outside the translated subset")
                 self.next()
@@ -431,7 +439,24 @@ class Parser:
                 if self.at("else"):
                     self.err("`let … else` is outside the translated subset")
                 self.expect(";")
-                stmts.append(Node("let", t.line, pat=pat, mut=mut, expr=e))
+                stmts.append(Node("let", t.line, pat=pat, mut=mut, expr=e, ann=ann))
+            elif self.at("loop"):
+                self.next()
+                stmts += self.normalise_loop(t, self.parse_block())
+                self.eat(";")
+            elif self.at("for"):
+                self.next()
+                pat = self.parse_pattern()
+                self.expect("in")
+                it = self.parse_expr()
+                b = self.parse_block()
+                self.eat(";")
+                stmts.append(Node("for", t.line, pat=pat, iter=it, body=b))
+            elif self.at("break") or self.at("continue"):
+                self.next()
+                if not self.at("}"):
+                    self.expect(";")
+                stmts.append(Node(t.val, t.line))
             elif self.at("while"):
                 self.next()
                 c = self.parse_expr()
@@ -449,7 +474,7 @@ class Parser:
                 if not self.at("}"):
                     self.expect(";")
                 stmts.append(Node("return", t.line, expr=e))
-            elif t.kind == "ident" and t.val in ("for", "loop", "match", "break", "continue", "unsafe", "fn", "const", "static", "struct",
+            elif t.kind == "ident" and t.val in ("match", "unsafe", "fn", "const", "static", "struct",
                                                  "enum", "impl", "trait", "mod", "use", "type", "macro_rules"):
                 self.err(f"`{t.val}` is outside the translated subset")
             elif self.at("{"):
@@ -466,6 +491,33 @@ class Parser:
                     tail = e
         self.expect("}")
         return Node("block", open_tok.line, stmts=stmts, tail=tail)
+
+    @staticmethod
+    def negate(c):
+        """`!c` with the negation pushed into a comparison, so that `loop { if b == 0 { break; } … }` and `while b != 0 { … }`
+        give the same condition text."""
+        flip = {"==": "!=", "!=": "==", "<": ">=", ">=": "<", ">": "<=", "<=": ">"}
+        if c.kind == "cmp":
+            return Node("cmp", c.line, op=flip[c.op], l=c.l, r=c.r)
+        if c.kind == "not":
+            return c.e
+        return Node("not", c.line, e=c)
+
+    def normalise_loop(self, t, body):
+        """S7': `loop { if c { break; } B }`  =  `while !c { B }`;   `loop { B  if c { break; } }`  =  `{ B }  while !c { B }`.
+        Any other `loop` (no such exit, or a `break` elsewhere) is outside the subset."""
+        def is_exit(s):
+            return (s.kind == "if" and s.els is None and s.then.tail is None and len(s.then.stmts) == 1 and s.then.stmts[0].kind == "break")
+        st = body.stmts
+        if body.tail is not None:
+            self.err("a `loop` body that ends in a value is outside the translated subset", t)
+        if st and is_exit(st[0]):
+            rest = Node("block", body.line, stmts=st[1:], tail=None)
+            return [Node("while", t.line, cond=self.negate(st[0].cond), body=rest)]
+        if st and is_exit(st[-1]):
+            rest = Node("block", body.line, stmts=st[:-1], tail=None)
+            return [Node("scope", t.line, body=rest), Node("while", t.line, cond=self.negate(st[-1].cond), body=rest)]
+        self.err("`loop` without an `if c { break; }` at its head or tail is outside the translated subset", t)
 
     def parse_if(self):
         t = self.expect("if")
@@ -770,6 +822,7 @@ class FnEmitter:
         self.defs = []           # finished loop definitions (text), in emission order
         self.loop_count = 0
         self.uid = 0
+        self.callees = []        # Lean names this function calls directly (other functions, its own loops), in order of first call
 
     def err(self, line, msg):
         raise TranslateError(self.file, line, msg)
@@ -818,6 +871,8 @@ class FnEmitter:
                 pre += p
                 ts.append(t)
             v = self.fresh(st)
+            if ctx.kind == "fn" and e.fn != self.fn.name and e.fn not in self.callees:
+                self.callees.append(e.fn)
             return pre + [("bind", f"{e.fn} fuel " + " ".join(ts), v)], v, callee.ret
         if k == "try":                                                                     # E9
             if ctx.kind != "fn":
@@ -922,8 +977,18 @@ class FnEmitter:
         def go(env2):
             return self.stmts(rest, tail, line, env2, ctx, st, after, ind)
 
+        if k == "scope":                                                                    # the first copy of a `loop` body (S7')
+            return self.block(s.body, env, ctx, st, go, ind)
+        if k in ("break", "continue"):
+            self.err(s.line, f"`{k}` other than the single `if c {{ break; }}` at the head or tail of a `loop` is outside the translated subset")
+        if k == "for":
+            self.err(s.line, "`for` is outside the translated subset (generic integers are not iterable; see rs2lean_typed.py for machine integers)")
         if k == "let":
             pre, t, ty = self.expr(s.expr, env, ctx, st)
+            if getattr(s, "ann", None) is not None:
+                if ty is not None and ty != s.ann:
+                    self.err(s.line, "the type annotation of `let` is not the type of its initialiser")
+                ty = s.ann
             if s.pat.kind == "pvar":                                                        # S1
                 v = self.fresh(st)
                 env2 = env + [Var(self.new_uid(), s.pat.name, v, s.mut, ty)]
@@ -1007,6 +1072,8 @@ class FnEmitter:
         state = [v for v in vars_ if v.mut]
         name = f"{self.fn.name}_loop{self.loop_count}"
         self.loop_count += 1
+        if ctx.kind == "fn" and name not in self.callees:
+            self.callees.append(name)
         # ---- the loop's own definition: its variables are renamed p0 … pm, fresh names restart at v0
         lenv = [Var(v.uid, v.rust, f"p{i}", v.mut, v.ty) for i, v in enumerate(vars_)]
         lst = {"n": 0}
@@ -1057,7 +1124,9 @@ class FnEmitter:
             lines = self.stmts(self.body.stmts, self.body.tail, self.body.line, env, ctx, st, None, "  ")
             ps = f" ({' '.join(f'p{i}' for i in range(n))} : Int)" if n else ""
             head = [f"def {fn.name} (fuel : Nat){ps} : Except Panic ({ret}) :="]
-        return self.defs + ["\n".join(head + lines)], recursive
+        # N2: name-independent handles on what this function calls, for proofs that must survive a renamed / restructured helper
+        aliases = [f"abbrev {fn.name}_callee{i} := @{c}" for i, c in enumerate(self.callees)]
+        return self.defs + ["\n".join(head + lines)] + aliases, recursive
 
 
 class Translator:
@@ -1111,13 +1180,16 @@ class Translator:
 
 
 HEADER = """import RlibModel.Model.Common
+import RlibModel.Generated.AttrSrc
 /-!
 GENERATED by `tools/rs2lean.py` from the source text of `{rel}` on every run of `./check {pid}`
 — do not edit by hand.  Translation scheme: the doc comment at the top of the tool.  One definition per Rust
 function (plus one per `while` loop), over `Int`, `/` and `%` as `Int.tdiv` / `Int.tmod`, division by zero as
 `Panic.divzero`, recursion and loops on an explicit `fuel`.  Variables are renamed (`p*` parameters, `v*` SSA
 locals), so this text depends on the source only up to renaming, comments and layout.
-`Lemmas/{stem}.lean` proves that each definition returns what the hand-written model returns.
+`Lemmas/{stem}.lean` proves that each definition returns what the hand-written model returns.  Every definition carries
+`@[src_def]` (so `simp only [src_def]` unfolds generated definitions without naming them) and every function is followed by
+`abbrev f_callee<i>` = the i-th distinct function / loop it calls: proofs can refer to a helper without knowing its name.
 -/
 set_option linter.unusedVariables false
 namespace {ns}
@@ -1132,7 +1204,7 @@ def render(defs, ns, rel, pid, stem, failure=None):
         safe = failure.replace("-/", "- /").replace("/-", "/ -")
         text += f"/- TRANSLATION FAILED — no definitions; everything that refers to them stops compiling.\n   {safe} -/\n\n"
     else:
-        text += "\n\n".join(defs) + "\n\n"
+        text += "\n\n".join(("@[src_def] " + d) if d.startswith("def ") else d for d in defs) + "\n\n"
     return text + f"end {ns}\n"
 
 
@@ -1158,6 +1230,30 @@ def write_if_changed(path, text):
     return True
 
 
+SUBSET = "translator subset (a limitation of the second tie — the construct is not translated; NOT a semantic finding): "
+PROOF = ("equivalence proof failed: the definitions regenerated from {src} are no longer proved equal to the hand-written model "
+         "({lemmas} does not compile against them) — a semantic difference is suspected, or a restructuring that needs a new proof")
+
+
+def tie_findings(generated, lemmas, translated_ok, src):
+    """For the `extra(ctx)` hook of a check (runs after `lake build`): when the translation succeeded but the compiled lemma module is
+    missing or older than its inputs, the equivalence proofs did not go through — say so in plain words.  `generated`, `lemmas`:
+    paths of .lean files below lean/.  (A rejected construct is reported by `extract` with the SUBSET prefix instead.)"""
+    if not translated_ok:
+        return []
+    lean = os.path.join(os.path.dirname(os.path.dirname(os.path.abspath(__file__))), "lean")
+    olean = os.path.join(lean, ".lake", "build", "lib", "lean", lemmas[:-len(".lean")] + ".olean")
+    try:
+        built = os.path.getmtime(olean)
+        fresh = all(built >= os.path.getmtime(os.path.join(lean, f)) for f in list(generated) + [lemmas])
+    except OSError:
+        fresh = False
+    if fresh:
+        return []
+    return [{"class": "broken", "kind": "proof", "nosearch": False,
+             "what": PROOF.format(src=src, lemmas="lean/" + lemmas)}]
+
+
 def run(src_path, out_path, ns, rel, pid, wanted=None):
     """Translate `src_path` and (re)write `out_path` when its content changes.  -> (info, problems)"""
     stem = os.path.splitext(os.path.basename(out_path))[0]
@@ -1167,7 +1263,7 @@ def run(src_path, out_path, ns, rel, pid, wanted=None):
         defs, info = translate_source(src, rel, wanted)
         text = render(defs, ns, rel, pid, stem)
     except (OSError, TranslateError) as e:
-        problems.append(f"rs2lean: {e}")
+        problems.append(SUBSET + f"rs2lean: {e}" if isinstance(e, TranslateError) else f"rs2lean: {e}")
         text = render([], ns, rel, pid, stem, failure=str(e))
     info["rewritten"] = write_if_changed(out_path, text)
     return info, problems
